@@ -1400,8 +1400,12 @@ impl Runner {
     }
 
     async fn net_handshake(&mut self, rng: &mut Rng, ch: usize, variant: HsVariant) {
+        // ch >= FORCE: a scripted, plain handshake for the live challenge ch - FORCE (never late, never
+        // from another port)
+        let forced = ch >= FORCE;
+        let ch = if forced { ch - FORCE } else { ch };
         // a quarter of the handshakes answer a challenge whose timer has run out (if there is one)
-        let late = ch % 4 == 3 && !self.w.expired_challenges.is_empty();
+        let late = !forced && ch % 4 == 3 && !self.w.expired_challenges.is_empty();
         if !late && self.w.out_challenges.is_empty() {
             return;
         }
@@ -1496,7 +1500,7 @@ impl Runner {
         }
         // one handshake in eight arrives from another port of the challenged host (a socket this node
         // never challenged): it must have no effect, whoever produced it
-        let relocated = !late && rng.chance(1, 8);
+        let relocated = !forced && !late && rng.chance(1, 8);
         let src = if relocated { SocketAddr::new(ch_addr.ip(), ch_addr.port() + 1 + rng.below(3) as u16) } else { ch_addr };
         let honest_signer = signer == pi && !ed_signer;
         if honest_signer && !late && !relocated && !matches!(variant, HsVariant::BadSignature | HsVariant::BadEphemeral | HsVariant::WrongStatic) {
@@ -1912,7 +1916,7 @@ async fn run_case(seed: u64, idx: u64, focus: &str, thorough: bool, fixes: &str)
             2 => {
                 r.net_random(&mut rng, q).await;
                 r.app_answer_wru(0, 1).await;
-                r.net_handshake(&mut rng, 0, HsVariant::Honest).await;
+                r.net_handshake(&mut rng, FORCE, HsVariant::Honest).await;
             }
             _ => {
                 r.app_request(&mut rng, q, false, 0).await;
@@ -2116,7 +2120,7 @@ async fn run_c15_case(seed: u64, idx: u64) -> (Vec<(String, String)>, Vec<String
     // establish: the peer sends a random packet, we challenge, the peer completes the handshake
     r.net_random(&mut rng, 0).await;
     r.app_answer_wru(0, 1).await;
-    r.net_handshake(&mut rng, 0, HsVariant::Honest).await;
+    r.net_handshake(&mut rng, FORCE, HsVariant::Honest).await;
     let established = r.steps.iter().any(|s| s.outs.iter().any(|o| matches!(o, AOut::Established(..))));
     script.push(format!("establish session with peer 0: {}", established));
     // optional traffic before the timeout (refreshes the session), in either direction
